@@ -55,3 +55,15 @@ Print Assumptions viewbox_only_agrees.
 Example ex_two_viewboxes_rejected :
   snd (decode_calls [] [137; 73; 86; 71; 4; 10; 0; 64; 64; 64; 64; 10; 0; 64; 64; 64; 64]) = Fail EInvalidMetadataIdentifier.
 Proof. vm_compute. reflexivity. Qed.
+
+(* ---- tie to the source: decode.isNaNOrInfinity (the building block of the viewBox validity test), translated from
+   /repo's working tree by harness/gosrc.go on every run (gen/GoSrc.v), is the model's test, and is "not finite" ---- *)
+From IVG Require Import NumBase GoSem GoSrc GenEqNum.
+
+Theorem code_isNaNOrInfinity : forall f, wf_f32 f -> go_decode_isNaNOrInfinity f = Decoder.is_nan_or_inf f.
+Proof. exact GenEqNum.go_isNaNOrInfinity_model. Qed.
+Print Assumptions code_isNaNOrInfinity.
+
+Theorem code_isNaNOrInfinity_meaning : forall f, wf_f32 f -> go_decode_isNaNOrInfinity f = negb (SF.is_finite SF.F32 f).
+Proof. exact GenEqNum.go_isNaNOrInfinity_eq. Qed.
+Print Assumptions code_isNaNOrInfinity_meaning.
